@@ -47,6 +47,20 @@ structure NsEnv where
   xsiNoNsSchemaLocation : Str
   /-- the XML namespace literal in `XMLGenerator._qname` -/
   saxXmlNs : Str
+  /-- `Namespace.XML.uri`, `Namespace.XML.prefix` -/
+  xmlUri : Str
+  xmlPrefix : Str
+  /-- `namespaces.is_ncname` (Python `str.isalpha` / `isdigit` classes) -/
+  isNcnamePy : Str → Bool
+
+/-- `is_ncname` as far as the model knows Python's character classes: exact on ASCII, every
+non-ASCII character counted as a letter (the generators keep prefixes inside this approximation) -/
+def ncnamePyApprox : Str → Bool
+  | [] => false
+  | c :: cs =>
+    let alpha (x : Char) : Bool := (65 ≤ x.toNat && x.toNat ≤ 90) || (97 ≤ x.toNat && x.toNat ≤ 122) || 128 ≤ x.toNat
+    (alpha c || c == '_') &&
+    cs.all (fun d => alpha d || isAsciiDigit d || d == '.' || d == '-' || d == '_')
 
 /-- `Namespace.get_enum(uri)` (only the prefix is used) -/
 def getEnum (env : NsEnv) (uri : Str) : Option Str :=
